@@ -512,7 +512,7 @@ fn through(spec: &DirSpec, scratch: &mut Scratch, rng: &mut Rng, r: &mut Report,
 				glist(applies.iter().map(|(q, a)| format!("({},{})", sid(q), gres(a.map(|x| x.to_string()))))))
 		});
 		// the tables may have grown by interning answers; they are printed after the view is built
-		let case = format!("CDir {} {} {} {}", glist(strs.iter().map(|x| gstr(&cps_str(x)))), d, tables.gallina(), gres(view));
+		let case = format!("CDir {} {} {} {} {}", glist(strs.iter().map(|x| gstr(&cps_str(x)))), d, gbool(wf), tables.gallina(), gres(view));
 		let nontrivial = obs.as_ref().map_or(false, |o| o.nodes.len() >= 2);
 		r.eval(&format!("{:?}|{:?}", listing, toks), nontrivial);
 		r.case(spec.kind, case);
